@@ -47,7 +47,7 @@ func buildTar(base string, es []ent) (*tar.Reader, error) {
 		h := &tar.Header{Name: e.name, Mode: e.mode, Format: tar.FormatPAX}
 		body := []byte{}
 		switch e.typ {
-		case "r":
+		case "r", "p", "k", "v": // (the special-mode letters are a zip matter; in a tar they are plain regular files)
 			h.Typeflag = tar.TypeReg
 			body = []byte("payload-" + e.payload)
 			h.Size = int64(len(body))
@@ -82,6 +82,12 @@ func buildZip(base string, es []ent) (*zip.Reader, error) {
 		switch e.typ {
 		case "r":
 			h.SetMode(os.FileMode(e.mode))
+			body = []byte("payload-" + e.payload)
+		case "p", "k", "v":
+			// an entry that carries data but whose recorded unix mode says named pipe / socket / device: the extractor
+			// writes it like a regular file (permission bits only), so it must be confined like one
+			sp := map[string]os.FileMode{"p": os.ModeNamedPipe, "k": os.ModeSocket, "v": os.ModeDevice | os.ModeCharDevice}[e.typ]
+			h.SetMode(sp | os.FileMode(e.mode))
 			body = []byte("payload-" + e.payload)
 		case "d":
 			h.SetMode(os.ModeDir | os.FileMode(e.mode))
@@ -332,6 +338,14 @@ func genTarget(r *hx.Rand, depth int) (bool, string) {
 	return false, strings.Join(p, "/")
 }
 
+// the letter of an entry that carries data: usually a regular file, sometimes one recorded with a special file mode
+func regLetter(r *hx.Rand) string {
+	if r.Chance(1, 4) {
+		return []string{"p", "k", "v"}[r.Intn(3)]
+	}
+	return "r"
+}
+
 func gen(r *hx.Rand, n int) []string {
 	var out []string
 	for i := 0; i < n; i++ {
@@ -365,7 +379,7 @@ func gen(r *hx.Rand, n int) []string {
 			for k := r.Range(1, 3); k > 0; k-- {
 				switch x := r.Intn(6); {
 				case x == 0:
-					ops = append(ops, fmt.Sprintf("e r %s/%s 644 %d 0 -", link, []string{"x", "secret", "a/b"}[r.Intn(3)], 10+r.Intn(80)))
+					ops = append(ops, fmt.Sprintf("e %s %s/%s 644 %d 0 -", regLetter(r), link, []string{"x", "secret", "a/b"}[r.Intn(3)], 10+r.Intn(80)))
 				case x == 1:
 					ops = append(ops, fmt.Sprintf("e d %s/%s 755 0 0 -", link, []string{"made", "made/deep", "a"}[r.Intn(3)]))
 				case x == 2:
@@ -374,7 +388,7 @@ func gen(r *hx.Rand, n int) []string {
 					ops = append(ops, fmt.Sprintf("e l %s 644 0 0 %s/%s", other, link, []string{"secret", "f", "x"}[r.Intn(3)]))
 					ops = append(ops, fmt.Sprintf("e r %s 644 %d 0 -", other, 10+r.Intn(80)))
 				case x == 4:
-					ops = append(ops, fmt.Sprintf("e r %s 644 %d 0 -", link, 10+r.Intn(80)))
+					ops = append(ops, fmt.Sprintf("e %s %s 644 %d 0 -", regLetter(r), link, 10+r.Intn(80)))
 				default:
 					ops = append(ops, fmt.Sprintf("e r %s 600 %d 0 -", other, 10+r.Intn(80)))
 				}
@@ -414,7 +428,7 @@ func gen(r *hx.Rand, n int) []string {
 			}
 			switch x := r.Intn(10); {
 			case x < 4:
-				ops = append(ops, fmt.Sprintf("e r %s %s %d 0 -", name, []string{"644", "600", "755", "640"}[r.Intn(4)], 10+r.Intn(80)))
+				ops = append(ops, fmt.Sprintf("e %s %s %s %d 0 -", regLetter(r), name, []string{"644", "600", "755", "640"}[r.Intn(4)], 10+r.Intn(80)))
 				fileNames = append(fileNames, name)
 			case x < 6:
 				ops = append(ops, fmt.Sprintf("e d %s %s 0 0 -", name, []string{"755", "700", "750"}[r.Intn(3)]))
